@@ -444,6 +444,41 @@ func c10Inputs(l *Lab, cfg c10Cfg, rnd *rand.Rand) []c10Input {
 			})
 		}
 	}
+	// ---- a very long run of empty websocket messages before the first packet: every one is a transport
+	// read that adds nothing; whatever the reader keeps per read (stack, memory) must not grow with them
+	for _, upto := range []int{0, 3} {
+		upto := upto
+		add("websocket-frame", fmt.Sprintf("ws 12 million empty binary messages after %d steps", upto), func(w *c10World, rec *c10Rec) {
+			e := w.env("ws")
+			t, _, err := e.OpenTunnel(NewConnID("we"))
+			if err != nil || t == nil {
+				return
+			}
+			defer t.Close()
+			ck := w.cookie
+			caps := uint16(0)
+			if w.cfg.Kind == "openid" {
+				caps = 2
+			}
+			steps := [][]byte{HandshakeReq(1, 0, 0, caps), TunnelCreate(0, &ck), TunnelAuth("c")}
+			for i := 0; i < upto; i++ {
+				t.Send(steps[i])
+				t.WaitPackets(i+1, 3*time.Second)
+			}
+			one := t.WSFrame(true, 0x2, nil, false)
+			chunk := bytes.Repeat(one, 1<<20)
+			rec.add([]byte(fmt.Sprintf("12 x 2^20 x empty binary frame %x", one)))
+			for i := 0; i < 12; i++ {
+				if t.SendWire("empty-frames", chunk) != nil {
+					return
+				}
+			}
+			t.Send(HandshakeReq(1, 0, 0, caps))
+			t.WaitPackets(upto+1, 60*time.Second)
+			t.CloseWrite()
+			t.WaitEnd(300*time.Millisecond, false)
+		})
+	}
 	// ---- legacy orderings and chunk syntax
 	legacy := map[string]func(w *c10World, rec *c10Rec){
 		"in-only": func(w *c10World, rec *c10Rec) {
